@@ -852,6 +852,11 @@ class Engine:
                 if nm in ("for_each", "try_for_each") and len(args) == 2 and self._closure_is_local(st, args[1]):
                     yield from self.fused_consumer(nm, frame, st, args, depth, site)
                     return
+                elif nm in ("any", "all") and len(args) == 2 and self._closure_is_local(st, args[1]) and self._closure_has_effects(st, args, depth, site):
+                    # a predicate with side effects (`.all(|x| { let ok = ser.try_add(x); flag |= ok; ok })`) is a loop with an early
+                    # exit, not a pure question: body rows + the exit paths, like try_for_each
+                    yield from self.fused_consumer(nm, frame, st, args, depth, site)
+                    return
                 elif nm in ("any", "all") and len(args) == 2 and self._closure_is_local(st, args[1]):
                     # `it.any(p)`: an opaque boolean that names the predicate applied to one (symbolic) element, so that rules can
                     # recognise "some element satisfies p" whatever the loop style
@@ -1080,6 +1085,27 @@ class Engine:
                     continue
                 yield s2, r
 
+    def _closure_has_effects(self, st, args, depth, site):
+        """does one run of the consumer closure write outside its own frame or hand a `&mut` to a function?"""
+        key = ("fused-effects", site)
+        if key in self.in_discovery:
+            return False
+        self.in_discovery.add(key)
+        try:
+            sa = st.fork()
+            n0 = len(sa.events)
+            for s2, r in self._closure_body_paths(sa, "all", args, depth, site):
+                for e in s2.events[n0:]:
+                    if e[0] == "write":
+                        return True
+                    if e[0] == "call" and len(e) > 6 and any(e[6]) and strip_all_generics(e[1]).split("::")[-1] not in ("next", "deref_mut", "as_mut", "borrow_mut", "iter_mut"):
+                        return True
+        except Unanalysable:
+            return False
+        finally:
+            self.in_discovery.discard(key)
+        return False
+
     def fused_consumer(self, nm, frame, st, args, depth, site):
         """`pipeline.for_each(g)` / `try_for_each(g)` as the loop it is.  (1) dry run of the body to find what it writes outside
         its own frame; (2) those places become loop variables (unknown value of an arbitrary iteration), the body paths are
@@ -1099,9 +1125,13 @@ class Engine:
             for c in self._pipeline_closures(sa, args[0]) + [g]:
                 self._havoc_closure_captures(sa, c, site)
             n0 = len(sa.events)
+            frame0 = self.frame_counter
             for s2, r in self._closure_body_paths(sa, nm, args, depth, site):
                 for e in s2.events[n0:]:
                     if e[0] == "write" and (e[1], tuple(e[2])) not in written:
+                        written.append((e[1], tuple(e[2])))
+                    # a local of an enclosing frame updated through a captured `&mut` (a flag, a counter)
+                    if e[0] == "lwrite" and e[1][0] == "L" and e[1][1] <= frame0 and (e[1], tuple(e[2])) not in written:
                         written.append((e[1], tuple(e[2])))
         finally:
             self.in_discovery.discard(key)
@@ -1109,7 +1139,8 @@ class Engine:
         def havoc(state):
             for i, (root, path) in enumerate(written):
                 cur = self.read_rp(state, root, path)
-                self.write_rp(state, root, path, ("loopvar", (0, "fused:%s:%s" % site, i), cur), site, log=False)
+                nm_ = (fmt_root(root) + "".join(fmt_elem(x) for x in path)) if root[0] == "L" else i
+                self.write_rp(state, root, path, ("loopvar", (0, "fused:%s:%s" % site, nm_), cur), site, log=False)
         # (2) body rows
         if not self.in_discovery and hasattr(self, "callee_backedges"):
             sb = st.fork()
@@ -1126,6 +1157,13 @@ class Engine:
                     for s3 in fails:
                         yield s3, r
                     continue
+                if nm in ("all", "any") and r is not ITER_SKIP:
+                    for s3, b in self.split_truth(s2, r):
+                        if b == (nm == "any"):
+                            yield s3, C(nm == "any")        # the predicate decided: the iteration stops here
+                        else:
+                            self.callee_backedges.append((s3, site))
+                    continue
                 self.callee_backedges.append((s2, site))
         # (3) continuation: the iteration is over — the source is exhausted or a take_while predicate failed (that path keeps
         #     its conditions: "an element was available, the loop was left")
@@ -1136,6 +1174,8 @@ class Engine:
             done = some(("agg", "<tuple>", None, ()))
         elif nm == "try_for_each":
             done = self.opaque(st, "std::iter::Iterator::try_for_each", list(args))
+        elif nm in ("all", "any"):
+            done = C(nm == "all")
         else:
             done = ("c", None)
         ends = 0
@@ -1491,6 +1531,12 @@ def s_option_and_then(eng, frame, st, args, fj, depth, site):
             yield from call_closure(eng, s2, args[1], [payload], depth, site)
 
 
+def s_option_flatten(eng, frame, st, args, fj, depth, site):
+    # Option<Option<T>>::flatten: Some(inner) -> inner, None -> None
+    for s2, tag, payload in split_option(eng, st, args[0]):
+        yield s2, (NONE if tag == "None" else _val(eng, s2, payload))
+
+
 def s_bool_then_some(eng, frame, st, args, fj, depth, site):
     # bool::then_some(c, v): the value is evaluated by the caller either way
     for s2, b in eng.split_truth(st, _val(eng, st, args[0])):
@@ -1715,6 +1761,8 @@ DEFAULT_SUMMARIES = {
     "std::option::Option::cloned": s_option_copied,
     "std::option::Option::unwrap": s_option_unwrap,
     "std::option::Option::and_then": s_option_and_then,
+    "std::option::Option::<std::option::Option<T>>::flatten": s_option_flatten,
+    "std::option::Option::flatten": s_option_flatten,
     "core::bool::<impl bool>::then_some": s_bool_then_some,
     "core::bool::<impl bool>::then": s_bool_then,
     "std::bool::<impl bool>::then_some": s_bool_then_some,
